@@ -336,6 +336,7 @@ func checkC17(c *fw.Ctx) {
 		}
 	}
 	checkBuildFormats(c)
+	checkLenientAcceptors(c, "4 grammar", "spec.parseAndValidateRoomID", "spec.parseAndValidateUserID", "spec.ParseAndValidateServerName")
 }
 
 // checkFieldsTable: CheckFields classification (oracle 4.9) decided structurally:
@@ -647,4 +648,55 @@ func checkBuildFormats(c *fw.Ctx) {
 		}
 	}
 	c.Min(rule+" event_id deletion", dels, 1)
+}
+
+// checkLenientAcceptors ("4 grammar"): the identifier parsers accept exactly their grammar.
+// That is a statement about strings and is not decided here; what the code does show is which
+// library routine decides acceptance. Some routines are known to accept more than the grammar:
+// base64 decoders skip CR / LF (and spec.Base64Bytes.Decode takes either alphabet), netip's
+// address parsers accept IPv6 zone identifiers. A parser whose region calls one of them without
+// the strict test next to it (a regexp match / a Zone() test) accepts strings outside the grammar.
+func checkLenientAcceptors(c *fw.Ctx, rule string, specs ...string) {
+	strict := 0
+	for _, spec := range specs {
+		fn := mustFunc(c, rule, spec)
+		if fn == nil {
+			continue
+		}
+		all := deepCallsTo(fn, func(string) bool { return true })
+		has := func(sub ...string) bool {
+			for _, dc := range all {
+				n := fw.CalleeName(dc.Call)
+				for _, s := range sub {
+					if strings.Contains(n, s) {
+						return true
+					}
+				}
+			}
+			return false
+		}
+		bad := 0
+		for _, dc := range all {
+			n := fw.CalleeName(dc.Call)
+			pos := c.P.Pos(dc.Call.Pos())
+			switch {
+			case strings.HasPrefix(n, "(*encoding/base64.Encoding).Decode") || strings.Contains(n, "spec.Base64Bytes).Decode") || strings.Contains(n, "spec.Base64Bytes).UnmarshalJSON"):
+				if !has("regexp.Regexp).MatchString", "regexp.Regexp).Match(", "regexp.MatchString") {
+					bad++
+					c.Fail(rule, spec+" does not accept through a lenient library routine", pos, n+" decides acceptance in "+spec+" with no pattern match beside it: base64 decoders skip CR / LF (and Base64Bytes.Decode takes the standard alphabet too), so identifiers outside the grammar are accepted")
+				}
+			case n == "net/netip.ParseAddr" || n == "net/netip.ParseAddrPort" || n == "net/netip.MustParseAddr":
+				if !has("netip.Addr).Zone") {
+					bad++
+					c.Fail(rule, spec+" does not accept through a lenient library routine", pos, n+" decides acceptance in "+spec+" and the zone of the result is never examined: IPv6 literals with a zone identifier (fe80::1%eth0) are accepted as server names")
+				}
+			case n == "net.ParseIP" || strings.Contains(n, "regexp.Regexp).MatchString") || n == "strconv.ParseUint":
+				strict++
+			}
+		}
+		if bad == 0 {
+			c.Ok(rule, spec+" does not accept through a lenient library routine", c.P.Pos(fn.Pos()), fmt.Sprintf("%d library calls in its region, none of the known lenient acceptors", len(all)))
+		}
+	}
+	c.Count("strict library acceptors recognised in the identifier parsers", strict)
 }
